@@ -32,7 +32,17 @@ def reserved_list(f, crate):
     if c is None:
         return None, None
     out = []
-    for arr in F.exprs(c["thir"], "Array"):
+    # the list may be spelled in place or refer to another constant holding the array (`&RESERVED_NAMES_TABLE`)
+    roots = [c["thir"]]
+    seen = {c["path"]}
+    for _ in range(3):
+        for x in list(F.exprs(roots[-1], "Const")):
+            cb = f.bodies.get(x.get("path"))
+            if cb is not None and cb["path"] not in seen and "thir" in cb:
+                seen.add(cb["path"])
+                roots.append(cb["thir"])
+    arrays = [arr for r_ in roots for arr in F.exprs(r_, "Array")]
+    for arr in arrays:
         elems = arr["elems"]
         if len(elems) < 20:
             continue
@@ -206,10 +216,108 @@ def rule_flow(chk):
 
 # ------------------------------------------------------------------ NameMap::build
 
+def rule_namemap_eval(chk, b):
+    """NameMap::build evaluated (namemodel.py) on model modules, hash containers iterated forwards and backwards.
+    Judged: (unique) in every scope the names of global symbols are pairwise distinct and none is a reserved word;
+    (verbatim) a symbol whose name clashes with nothing keeps it; (locals) no local ends up spelled like a reserved word
+    or like a name that was generated for a global symbol, renamed locals collide with no other local, and a local
+    that clashes with nothing keeps its name; (deterministic) the result does not depend on the hash order. Returns
+    False when the function cannot be read."""
+    import namemodel as NM
+    f = chk.facts
+    m = NM.NameModel(f)
+    RES = ["half", "float16_t", "fragment", "float"]
+    scen = {
+        "overloads-and-locals": dict(namespaces=[], structs=[("S", None)], enums=[], globals=[("g", None)],
+                                     functions=[("f", None, "plain"), ("f", None, "plain"), ("pack", None, "template"), ("pack", None, "instance"), ("pack", None, "instance")],
+                                     locals=["x", "f_0", "f_1", "pack_1", "g", "x"]),
+        "reserved-words": dict(namespaces=[("N", None)], structs=[("half", None)], enums=[("fragment", 0)], globals=[("float16_t", 0), ("ok", 0)],
+                               functions=[("float", None, "plain"), ("half", 0, "plain")], locals=["half", "fragment", "half_0", "y"]),
+        "namespaces": dict(namespaces=[("N", None), ("M", None), ("K", 0)], structs=[("f", 2)], enums=[],
+                           globals=[("v", None), ("v", 0), ("v", 1)],
+                           functions=[("f", 0, "plain"), ("f", 0, "plain"), ("f", 1, "plain"), ("f", 1, "plain"), ("f", 1, "plain"), ("f_0", 1, "plain")], locals=["f_0", "f_2", "v"]),
+        "nothing-clashes": dict(namespaces=[("A", None)], structs=[("S", None), ("T", 0)], enums=[("E", None)], globals=[("g", None), ("h", 0)],
+                                functions=[("main", None, "plain"), ("helper", 0, "plain"), ("tmpl", None, "template")], locals=["a", "b", "a"]),
+    }
+    first = True
+    for name, spec in scen.items():
+        r1 = m.run(spec, RES, reverse=False)
+        r2 = m.run(spec, RES, reverse=True)
+        if isinstance(r1, tuple) and first and r1[0] == "unreadable":
+            return False
+        first = False
+        why = None
+        if isinstance(r1, tuple) or isinstance(r2, tuple):
+            bad = r1 if isinstance(r1, tuple) else r2
+            why = "building the name map %s (%s)" % (bad[0], bad[1][:100])
+        else:
+            if r1 != r2:
+                d = [k for k in r1 if r1.get(k) != r2.get(k)]
+                why = "the name given to %s %d depends on the hash order (%s / %s): two compilations of one input can differ" % (d[0][0], d[0][1], r1[d[0]], r2.get(d[0]))
+            src = {}
+            for kind, key in (("Struct", "structs"), ("Enum", "enums"), ("GlobalVariable", "globals")):
+                for i, (nm, nsx) in enumerate(spec[key]):
+                    src[(kind, i)] = (nsx, nm)
+            for i, (nm, nsx, kd) in enumerate(spec["functions"]):
+                if kd != "template":
+                    src[("Function", i)] = (nsx, nm)
+            for i, (nm, par) in enumerate(spec["namespaces"]):
+                src[("Namespace", i)] = (par, nm)
+            missing = [k for k in src if k not in r1] + [("LocalVariable", i) for i in range(len(spec["locals"])) if ("LocalVariable", i) not in r1]
+            extra = [k for k in r1 if k[0] == "Function" and spec["functions"][k[1]][2] == "template"]
+            if why is None and (missing or extra):
+                why = "symbols without a name: %s; named templates: %s" % (missing, extra)
+            if why is None:
+                per_scope = {}
+                for k, (nsx, nm) in r1.items():
+                    if k[0] == "LocalVariable":
+                        continue
+                    if nm in RES:
+                        why = "%s %d in scope %s is named `%s`, a reserved word of the target" % (k[0], k[1], nsx, nm)
+                    if nm in per_scope.setdefault(nsx, {}):
+                        why = "%s %d and %s %d in scope %s are both named `%s`" % (k + per_scope[nsx][nm] + (nsx, nm))
+                    per_scope[nsx][nm] = k
+                    if src[k][0] != nsx:
+                        why = "%s %d moved from scope %s to %s" % (k + (src[k][0], nsx))
+            if why is None:
+                generated = {nm for k, (nsx, nm) in r1.items() if k[0] != "LocalVariable" and nm != src[k][1]}
+                count = {}
+                for k, v in src.items():
+                    count[v] = count.get(v, 0) + 1
+                for k, (nsx, nm) in r1.items():
+                    if k[0] != "LocalVariable" and count[src[k]] == 1 and src[k][1] not in RES and src[k][1] not in generated and nm != src[k][1]:
+                        why = "%s %d `%s` clashes with nothing but is renamed to `%s`" % (k + (src[k][1], nm))
+                finals = {}
+                for i, lname in enumerate(spec["locals"]):
+                    nm = r1[("LocalVariable", i)][1]
+                    if nm in RES:
+                        why = "local `%s` is emitted as `%s`, a reserved word" % (lname, nm)
+                    elif nm in generated:
+                        why = "local `%s` is emitted as `%s`, which is also the name generated for a global symbol: inside its scope the local captures every use of that symbol" % (lname, nm)
+                    elif nm != lname and (nm in spec["locals"] or nm in finals.values() and list(finals.values()).count(nm) > 0):
+                        why = "local `%s` is renamed to `%s`, which another local already uses" % (lname, nm)
+                    elif nm != lname and lname not in RES and lname not in generated:
+                        why = "local `%s` clashes with nothing but is renamed to `%s`" % (lname, nm)
+                    finals[i] = nm
+        chk.ob("C15.unique/model/%s" % name, why is None, "names are unique per scope, avoid reserved words, keep unclashing names, locals avoid generated names; same result in both hash orders" if why is None else
+               "NameMap::build on the model module `%s`: %s" % (name, why), where(b), sample={"scenario": name})
+    for k_ in ("C15.unique/suffix-loop", "C15.unique/direct", "C15.verbatim/direct", "C15.unique/locals", "C15.unique/generated-visible-to-locals", "C15.seeded/reserved"):
+        chk.ob(k_, True, "decided by the evaluated name map (C15.unique/model/*)", where(b), trivial=True)
+    return True
+
+
 def rule_namemap(chk):
     f = chk.facts
     b = chk.anchor("C15.anchor/NameMap::build", f.fn("build", "rssl_ir", self_ty="NameMap"), "NameMap::build")
     if not b:
+        return
+    evaluated = False
+    try:
+        evaluated = rule_namemap_eval(chk, b)
+    except Exception as e:
+        chk.note("name map model not evaluated: %r" % (e,))
+    if evaluated:
+        rule_namemap_callers(chk, b)
         return
     t = b["thir"]
     # names inserted into the final map
@@ -323,6 +431,11 @@ def rule_namemap(chk):
                                             seeded = True
     chk.ob("C15.seeded/reserved", fills and seeded, "each scope's used-name set starts from all reserved names" if fills and seeded else
            "the per-scope used-name set is no longer seeded with the reserved names (fills=%s clone=%s)" % (fills, seeded), where(b))
+    rule_namemap_callers(chk, b)
+
+
+def rule_namemap_callers(chk, b):
+    f = chk.facts
     # callers pass their own RESERVED_NAMES
     for crate in ("rssl_hlsl", "rssl_msl"):
         ok = False
@@ -331,7 +444,7 @@ def rule_namemap(chk):
                 continue
             for c in F.exprs(bb["thir"], "Call"):
                 if c.get("fn") == b["path"]:
-                    a1 = F.strip(c["args"][1])
+                    a1 = F.strip(F.inline_lets(bb["thir"], c["args"][1]))
                     ok = any(x.get("k") == "Const" and x["path"].startswith(crate) and short(x["path"]) == "RESERVED_NAMES" for x in F.walk(a1))
         chk.ob("C15.seeded/%s-passes-its-list" % crate, ok, "NameMap::build(module, %s::RESERVED_NAMES, ..)" % crate if ok else
                "%s no longer passes its own RESERVED_NAMES to NameMap::build" % crate, crate)
